@@ -6162,6 +6162,8 @@ class Path(Shape, MutableSequence):
     def vertical(self, *y_points, relative=False, **kwargs):
         for index in range(len(y_points)):
             start_pos = self.current_point
+            if start_pos is None:
+                raise ValueError("vertical line requires a current point")
             if relative:
                 self.append(
                     Line(
@@ -6183,6 +6185,8 @@ class Path(Shape, MutableSequence):
     def horizontal(self, *x_points, relative=False, **kwargs):
         for index in range(len(x_points)):
             start_pos = self.current_point
+            if start_pos is None:
+                raise ValueError("horizontal line requires a current point")
             if relative:
                 self.append(
                     Line(
@@ -6342,6 +6346,8 @@ class Path(Shape, MutableSequence):
             end_pos = arc_args[index + 5]
             if end_pos in ("z", "Z"):
                 end_pos = self.z_point
+            if start_pos is None or end_pos is None:
+                raise ValueError("arc requires a current point")
             self.append(
                 Arc(start_pos, rx, ry, rotation, arc, sweep, end_pos, relative=relative)
             )
